@@ -25,8 +25,8 @@ def run(tier, replay=None):
     inc = [x for x in rw[1] if str(x.get("meta", {}).get("rewrite", "")).startswith("inc")]
     rest = [x for x in rw[1] if not str(x.get("meta", {}).get("rewrite", "")).startswith("inc")]
     fams.append((rw[0], inc + (rest[seed % 4::4] if tier == "quick" else rest), rw[2]))
-    ed = gens.exprs_deep()
-    fams.append(("operands with >= 2 operators inside, order-sensitive operands (sample of C12's)", gens.context_sessions((ed[:-144][seed % 6::6] + ed[-144:]) if tier == "quick" else ed, first_id=1300000,
+    ed = gens.exprs_deep()      # six shapes per (operand, neighbour, operator): the quick stride is coprime to 6 so that every shape is sampled with every seed
+    fams.append(("operands with >= 2 operators inside, order-sensitive operands (sample of C12's)", gens.context_sessions((ed[:-144][seed % 7::7] + ed[-144:]) if tier == "quick" else ed, first_id=1300000,
                                                                                                                       ctx_filter={"top", "fntail", "assign", "arg", "ifcond", "elem"} if tier == "quick" else None), ("value",)))
     fams.append(props.cross_sample(tier, seed))
     fams.append(props.c01_rebinding(tier, seed))
